@@ -30,32 +30,25 @@ def sig_fn(tr, event, stuck):
     variant = tr["meta"]["variant"] + ("+dupcfg" if tr["meta"].get("dup_system") else "")
     pof = tr["cfg"]["portsOf"]
     eop = event.get("op") or {}
+    # keys are kept coarse (root cause, not circumstances): the circumstances are in the replay file
     if fail & {"RunningKeepsPortOpen", "NoPortOpenUnlessRunning"}:
         want = {p for m, s_ in eop.items() if s_ == "RUNNING" for p in pof.get(m, [])}
         diff = sorted(want.symmetric_difference(set(event.get("ports") or [])))
-        p0 = diff[0] if diff else 0
-        return {"variant": variant, "port": p0,
-                "running_owners": sorted(m for m, s_ in eop.items() if s_ == "RUNNING" and p0 in pof.get(m, [])),
-                "other_owners": sorted(m for m, s_ in eop.items() if s_ not in ("RUNNING", "ABSENT") and p0 in pof.get(m, []))}
+        return {"variant": variant, "port": diff[0] if diff else 0, "event": "any"}
     if "NotRunningNeverHandles" in fail:
         bad = sorted(m for m in event.get("handled") or [] if not (event.get("on") and op.get(m) == "RUNNING"))
-        port = event.get("port")
-        return {"variant": variant, "handler": bad[0] if bad else "", "handler_state": op.get(bad[0]) if bad else None,
-                "port": port, "port_opened_by": sorted(m for m, s_ in op.items() if s_ == "RUNNING" and port in pof.get(m, []))}
+        return {"variant": variant, "handler": bad[0] if bad else "", "port": event.get("port")}
     if fail & {"TimedNotLate", "TimedNotEarly", "NoSpontaneousChange"}:
         ch = sorted(m for m in eop if op.get(m) in ("RESTARTING", "INSTALLING") or eop.get(m) != op.get(m))
-        return {"variant": variant, "sw": ch[0] if ch else "", "state_before": op.get(ch[0]) if ch else None,
-                "state_after": eop.get(ch[0]) if ch else None, "duration": tr["cfg"]["rd"] if (ch and op.get(ch[0]) == "RESTARTING") else tr["cfg"]["id"]}
+        return {"sw": ch[0] if ch else "", "state_before": op.get(ch[0]) if ch else None,
+                "state_after": eop.get(ch[0]) if ch else None}
     if fail & {"RegistriesAgree", "NoDuplicateInstances"}:
         regs = {k: event.get(k) or [] for k in ("installed", "nodeList", "routes", "reported")}
         present = sorted(m for m, s_ in eop.items() if s_ != "ABSENT")
         odd = sorted({m for v in regs.values() for m in v if v.count(m) > 1} | {m for v in regs.values() for m in set(v) ^ set(present)})
         return {"variant": variant, "sw": odd[0] if odd else "", "registries": {k: (v.count(odd[0]) if odd else 0) for k, v in regs.items()}}
-    role = next((r for r in rs.ROLES if tr["meta"].get(r) == n), "")
     return {
-        "variant": variant,
         "sw": n,
-        "role": role,
         "verb": event.get("verb") if event.get("ev") in ("Req", "Power", "Raised") else "",
         "state_before": op.get(n) if n else None,
     }
@@ -100,9 +93,9 @@ def main(tier: str, seed: int) -> int:
 
     quick = tier == "quick"
     types = rs.QUICK_TYPES if quick else rs.SERVICES + rs.APPLICATIONS
-    n_clean, n_shared = (10, 4) if quick else (48, 16)
+    n_clean, n_shared, n_listen = (9, 3, 3) if quick else (44, 14, 12)
     depth = 36 if quick else 60
-    per_type = n_clean + n_shared
+    per_type = n_clean + n_shared + n_listen
     behs, info = tlc.simulate("MC_Software", num=per_type * len(types), depth=depth, seed=seed + 13)
     chk.cov["transitions"] += info["states"]
 
@@ -131,15 +124,13 @@ def main(tier: str, seed: int) -> int:
         for j in range(per_type):
             beh = behs[bi]
             bi += 1
-            variant = "clean" if j < n_clean else "shared"
+            variant = "clean" if j < n_clean else ("shared" if j < n_clean + n_shared else "listen")
             acts = rs.actions_of(beh)
             if sw_type in AVOID and j % 2:
                 acts = filtered(sw_type, acts)
             jobs.append((variant, beh[0]["state"]["restartDur"], beh[0]["state"]["installDur"], acts, False))
         for xi, seq in enumerate(extra):  # directed sequences, durations cycling over 0..2
-            for variant in ("clean", "shared"):
-                if quick and variant == "shared" and xi % 2:
-                    continue
+            for variant in ("clean", "shared", "listen"):
                 jobs.append((variant, (xi + ti) % 3, (xi + ti + (variant == "shared")) % 3, seq, False))
                 if sw_type in AVOID and variant == "clean":
                     jobs.append((variant, (xi + ti + 1) % 3, (xi + ti) % 3, filtered(sw_type, seq), False))
@@ -147,6 +138,10 @@ def main(tier: str, seed: int) -> int:
         jobs.append(("clean", 1, 1, extra[0], True))
         for ji, (variant, rd, idur, actions, dup) in enumerate(jobs):
             node_kind = "server" if (ji + ti) % 2 == 0 else "computer"
+            if variant == "listen":
+                # the listening partner keeps its configured listen_on_ports only as long as it is the instance
+                # that was configured: never uninstall it (a re-installed instance has the class defaults)
+                actions = [a for a in actions if a[:2] != ["uninstall", "app"] or sw_type in rs.APPLICATIONS]
             tr = rs.run_actions(rec, holder, sw_type, variant, node_kind, rd, idur, actions, dup)
             traces.append(tr)
             chk.add_case({"t": sw_type, "v": variant, "rd": rd, "id": idur, "dup": dup, "acts": actions},
@@ -175,7 +170,14 @@ def main(tier: str, seed: int) -> int:
             prev = e["op"]
     chk.cov["timing_drift_report"] = dict(sorted(drift.items()))
     chk.cov["software_types"] = types
-    chk.cov["traces_by_variant"] = {v: sum(1 for t in traces if t["meta"]["variant"] == v) for v in ("clean", "shared")}
+    chk.cov["traces_by_variant"] = {v: sum(1 for t in traces if t["meta"]["variant"] == v) for v in ("clean", "shared", "listen")}
+    acc: Dict[str, Dict[str, List[int]]] = {}
+    for tr, (reached, length) in zip(traces, res["results"]):
+        v = tr["meta"]["variant"] + ("+dupcfg" if tr["meta"].get("dup_system") else "")
+        a = acc.setdefault(tr["meta"]["sw_type"], {}).setdefault(v, [0, 0])
+        a[0] += int(reached == length + 1)
+        a[1] += 1
+    chk.cov["accepted_of_total_by_type_and_variant"] = acc
     for tr in traces[:2]:
         chk.sample({"cfg": tr["cfg"], "meta": tr["meta"], "events": tr["ev"][:6]})
     chk.assumptions += [
@@ -189,7 +191,8 @@ def main(tier: str, seed: int) -> int:
         "status of fix / execute, of install of present software and of uninstall of absent software is not pinned by the "
         "documentation and left free; enable may lead to STOPPED or RUNNING",
         "clean variant: background software sharing a port with the bound software is disabled / uninstalled through the "
-        "request API before recording; shared variant leaves it alone",
+        "request API before recording; shared variant leaves it alone; listen variant = clean + the bound partner's "
+        "listen_on_ports attribute set to the ports of the software under test",
     ]
     return chk.finish()
 
